@@ -187,6 +187,9 @@ func (c *compiler) mangledNameDecl(decl ast.Declaration) string {
 			for _, p := range decl.Parameters {
 				declName += strings.ReplaceAll(p.Type.Type.String(), " ", "_")
 			}
+			// generic functions of different modules may share their name and
+			// be instantiated with the same types in the same module
+			declName = mangledNameBase(declName, decl.GenericInstantiation.GenericDecl.Module())
 		}
 	case *ast.VarDecl:
 		if decl.IsExternVisible {
